@@ -130,8 +130,14 @@ GuardsHold ==
          /\ hookCalls = 1
          /\ (outcome[1] = "accept") <=> hook
          /\ outcome[1] = "accept" => outcome[2] = "native"
+(* ------------------------------ the writer's view (C14) ------------------------------ *)
+\* validio.py, Writer.write_row / _padded_fixed_row: a fixed-width value shorter than its field is written right-padded with
+\* blanks. What is written is what a reader will see: a writer has to judge a value the way the reader judges Pad(value),
+\* or its output does not validate again (harness/c14.py looks the verdict of the padded cell up among the behaviours).
+Pad(f, c) == IF f.fmt = "fixed" /\ Len(c) < LowerLimit(f.length)
+             THEN c \o [i \in 1..(LowerLimit(f.length) - Len(c)) |-> "b"] ELSE c
 TypeOK == stage \in {"chars", "empty", "length", "strip", "value", "done"} /\ hookCalls \in 0..1
 Emit == stage = "done" =>
    PrintT(<<"VEC", ToJson([fld |-> fld, cell |-> cell, hook |-> hook, outcome |-> outcome, hookCalls |-> hookCalls,
-                            undecided |-> Undecided(fld, cell)])>>)
+                            undecided |-> Undecided(fld, cell), padded |-> Pad(fld, cell)])>>)
 =============================================================================
